@@ -143,6 +143,8 @@ class AssignmentRejections(Contract):
         return [
             ("TypeError", z3.BoolVal(case["what"] == "not_a_resource")),
             ("ValueError", z3.BoolVal(case["what"] == "twice")),
+            # the same selection twice is rejected too (by the duplicate-assertion check)
+            ("AssertionError", z3.BoolVal(case["what"] == "twice_select")),
         ]
 
     def clauses(self, P, ctx, case):
